@@ -5,7 +5,11 @@
   every build of every history, a build being a fold of the step).
 -/
 import GrogModel.Lemmas.BuildBasic
+import GrogModel.Lemmas.BuildForced
+import GrogModel.Lemmas.BuildFail
+import GrogModel.Props.C15
 set_option linter.unusedSectionVars false
+set_option linter.unusedVariables false
 set_option linter.unusedSimpArgs false
 namespace Grog.C13
 open Grog Grog.Exec
@@ -100,28 +104,39 @@ theorem disabled_executes_all (P : Params κ) (cfg : Cfg) (defs : Defs) (fuel : 
   no_hit_executes P cfg defs fuel t s hm hd ohs ho (forced_no_hit P cfg t _ s (Or.inr (Or.inr hc)))
 
 /-- **dependants_iff_outputs_changed.** A dependant sees a re-executed target only through its output hash
-    (`keyState` takes the hashes of the dependencies and nothing else of them). For a forced execution that hash
-    is an injective function of the produced (definition, value) list: it is unchanged iff the outputs are. (A
-    target without outputs exposes its own key instead, which is unchanged when its state is.) -/
-theorem dependants_iff_outputs_changed (cfg : Cfg) (t : Target) (k : κ) (ovs₁ ovs₂ : Outs)
-    (h : t.noCache = true ∨ cfg.enableCache = false ∨ t.outs ≠ []) :
+    (`keyState` takes the hashes of the dependencies and nothing else of them). For a target with declared outputs that hash
+    is, in every mode (cached, no-cache, cache disabled), an injective function of the produced (definition, value) list:
+    it is unchanged iff the outputs are. -/
+theorem dependants_iff_outputs_changed (cfg : Cfg) (t : Target) (k : κ) (ovs₁ ovs₂ : Outs) (h : t.outs ≠ []) :
     ohFor cfg t k ovs₁ = ohFor cfg t k ovs₂ ↔ ovs₁ = ovs₂ := by
   constructor
   · intro he
     unfold ohFor at he
     split at he
-    · simpa using he
-    · split at he
-      · rename_i h1 h2
-        rcases h with h | h | h
-        · simp [h] at h1
-        · simp [h] at h1
-        · exact absurd (List.isEmpty_iff.1 h2) h
-      · simpa using he
+    · rename_i h1; exact absurd (List.isEmpty_iff.1 h1) h
+    · split at he <;> simpa using he
   · intro he; rw [he]
 
-example : ∃ (cfg : Cfg) (t : Target), t.noCache = true ∨ cfg.enableCache = false ∨ t.outs ≠ [] :=
-  ⟨⟨true, false⟩, mkT [97] [⟨false, [111]⟩] [] false, Or.inr (Or.inr (by simp [mkT]))⟩
+/-- **outputless_exposes_key.** A target without outputs exposes its own key — whether it ran cached, as a no-cache target
+    or with the cache disabled (the record such a run leaves is a usable hit later, so all three must agree: regression,
+    see `outputless_disabled_witness`). It is unchanged iff the target's state is. -/
+theorem outputless_exposes_key (cfg : Cfg) (t : Target) (k : κ) (ovs : Outs) (h : t.outs = []) : ohFor cfg t k ovs = .self k := by
+  simp [ohFor, h]
+
+/-- **outputless_disabled_witness** (regression). Before the repair the no-cache / cache-disabled branch came first: an
+    output-less target run with the cache disabled exposed `.nocache []` (a constant) and a later run with the cache enabled
+    exposed its key, so a dependant's key changed although nothing had changed, and did not change when the target did. -/
+theorem outputless_disabled_witness :
+    ∃ (t : Target), t.outs = [] ∧ ∀ (k₁ k₂ : Nat),
+      (fun (cfg : Cfg) (k : Nat) => (if t.noCache || !cfg.enableCache then OH.nocache [] else if t.outs.isEmpty then OH.self k else OH.outs []))
+        ⟨false, false⟩ k₁ =
+      (fun (cfg : Cfg) (k : Nat) => (if t.noCache || !cfg.enableCache then OH.nocache [] else if t.outs.isEmpty then OH.self k else OH.outs []))
+        ⟨false, false⟩ k₂ ∧
+      (k₁ ≠ k₂ → ohFor ⟨false, false⟩ t k₁ [] ≠ ohFor ⟨false, false⟩ t k₂ []) ∧
+      ohFor ⟨false, false⟩ t k₁ [] = ohFor ⟨true, false⟩ t k₁ [] :=
+  ⟨mkT [97] [] [] false, rfl, fun k₁ k₂ => ⟨rfl, fun hne he => by simp [ohFor, mkT] at he; exact hne he, rfl⟩⟩
+
+example : ∃ (t : Target), t.outs ≠ [] := ⟨mkT [97] [⟨false, [111]⟩] [] false, by simp [mkT]⟩
 
 /-- the key of a dependant is a function of its own definition, its input contents and the output hashes of its
     dependencies: equal hashes, equal key -/
@@ -146,5 +161,152 @@ example : ∃ (P : Params Nat) (cfg : Cfg) (defs : Defs) (t : Target) (s s' : BS
   refine ⟨P, ⟨true, false⟩, fun _ => none, t, s, (execTarget P ⟨true, false⟩ (fun _ => none) t 0 true s).1, rfl, rfl, ?_⟩
   apply Prod.ext rfl
   simp [execTarget, checksPass, collect, writeOuts, writeSets, P, t, s, c, mkT]
+
+
+/-! ## whole builds and histories
+
+  The statements above are about one step from an arbitrary state. Below: a *build* (`Build.build`, the fold of the step
+  over a well-formed order) and *histories* (`Build.runHistory`): the step of a selected target is reached with the taint
+  the build started with and with the final statuses of its dependencies, a pending taint survives everything except a
+  build that selects the target, and `load_outputs=minimal` executes exactly what `all` executes (C15's lock step). -/
+section histories
+open Grog.Build
+
+/-- **forced_executed_in_build.** In a mode-`all` build over a well-formed order, a selected target whose direct
+    dependencies all succeeded in this build is executed if it is tainted when the build starts, or no-cache, or the cache
+    is disabled — whatever the cache holds for it ("executed by the next build that selects it", "in every build that
+    selects it", "every selected target whose dependencies succeed"). -/
+theorem forced_executed_in_build (P : Params κ) (cfg : Cfg) (hm : cfg.minimal = false) (w : World κ) (order : List Lbl)
+    (hwf : WF w.defs order) (l : Lbl) (hl : l ∈ order) (t : Target) (ht : w.defs l = some t)
+    (hf : w.cache.taint l = true ∨ t.noCache = true ∨ cfg.enableCache = false)
+    (hdeps : ∀ d ∈ t.deps, okAt (build P cfg w order) d) : l ∈ executed (build P cfg w order) := by
+  obtain ⟨s0, h1, h2, h3, h4, _, _⟩ := reached (P := P) hm w hwf l hl t ht
+  have hlab : t.label = l := hwf.label l t ht
+  have hd : depsOk s0.st t.deps = true := depsOk_intro _ _ (fun d hd => by rw [h2 d hd]; exact hdeps d hd)
+  have hhd : t.hdeps = t.deps := (hwf.hdeps l hl t ht).1
+  have hoh : depOhs s0.st t.hdeps ≠ none := by
+    apply depOhs_some_of
+    intro d hd'
+    rw [hhd] at hd'
+    obtain ⟨ts, hts, hk⟩ := depsOk_mem hd d hd'
+    obtain ⟨oh, ho⟩ := h3 d ts hts hk
+    exact ⟨ts, oh, hts, ho⟩
+  cases ho : depOhs s0.st t.hdeps with
+  | none => exact absurd ho hoh
+  | some ohs =>
+    have hlog := no_hit_executes P cfg w.defs (fuelFor order) t s0 hm hd ohs ho
+      (forced_no_hit P cfg t _ s0 (by rw [hlab, h1]; exact hf))
+    simp only [executed, List.mem_reverse]
+    exact h4 l (by rw [hlog, hlab]; simp)
+
+/-- **taint_after_build.** A target that is tainted when a mode-`all` build that selects it starts: if the build marks it
+    successful its taint is gone when the build returns; if not (it failed, or a dependency failed) it is still tainted. -/
+theorem taint_after_build (P : Params κ) (cfg : Cfg) (hm : cfg.minimal = false) (hfx : P.fx.syncTaint = true) (w : World κ)
+    (order : List Lbl) (hwf : WF w.defs order) (l : Lbl) (hl : l ∈ order) (t : Target) (ht : w.defs l = some t)
+    (htaint : w.cache.taint l = true) :
+    (okAt (build P cfg w order) l → (build P cfg w order).cache.taint l = false) ∧
+    (¬ okAt (build P cfg w order) l → (build P cfg w order).cache.taint l = true) := by
+  obtain ⟨s0, h1, _, _, _, h5, h6⟩ := reached (P := P) hm w hwf l hl t ht
+  have hlab : t.label = l := hwf.label l t ht
+  constructor
+  · rintro ⟨ts, hts, hk⟩
+    rw [h6, ← hlab]
+    rw [h5, ← hlab] at hts
+    exact taint_consumed P cfg w.defs (fuelFor order) t s0 hm hfx (by rw [hlab, h1]; exact htaint) _ rfl ts hts hk
+  · intro hn
+    obtain ⟨_, _, _, _, h55, ts, hts⟩ := step_basic P cfg w.defs (fuelFor order) t s0 hm
+    have hk : ts.ok = false := by
+      cases hb : ts.ok with
+      | false => rfl
+      | true => exact absurd ⟨ts, by rw [h5, ← hlab]; exact hts, hb⟩ hn
+    rw [h6, ← hlab, h55 ts hts hk, hlab, h1]; exact htaint
+
+/-- a build that does not select the target leaves its taint alone -/
+theorem taint_kept_if_not_selected (P : Params κ) (cfg : Cfg) (hm : cfg.minimal = false) (w : World κ) (order : List Lbl)
+    (hlab : ∀ l t, w.defs l = some t → t.label = l) (l : Lbl) (hl : l ∉ order) :
+    (build P cfg w order).cache.taint l = w.cache.taint l :=
+  ((run_frame P cfg w.defs (fuelFor order) hm hlab order (start w)).1 l hl).2
+
+theorem taintAll_true (c : Cache κ) (l : Lbl) : ∀ ls : List Lbl, (c.taint l = true ∨ l ∈ ls) → (taintAll c ls).taint l = true := by
+  intro ls
+  induction ls generalizing c with
+  | nil => intro h; rcases h with h | h; exact h; cases h
+  | cons a ls ih =>
+    intro h
+    simp only [taintAll]
+    apply ih
+    by_cases e : l = a
+    · left; subst e; simp
+    · rcases h with h | h
+      · left; simp only; rw [upd_other _ _ _ _ e]; exact h
+      · right; rcases List.mem_cons.1 h with h | h
+        · exact absurd h e
+        · exact h
+
+/-- the steps that cannot consume a pending taint of `l`: edits, further taints, lost blobs, and mode-`all` builds that do
+    not select `l` -/
+def Keeps (l : Lbl) (w : World κ) : Step → Prop
+  | .build cfg order => cfg.minimal = false ∧ (∀ l t, w.defs l = some t → t.label = l) ∧ l ∉ order
+  | _ => True
+
+def KeepsHist (P : Params κ) (l : Lbl) : World κ → List Step → Prop
+  | _, [] => True
+  | w, st :: rest => Keeps l w st ∧ KeepsHist P l (step P w st) rest
+
+/-- **taint_survives.** A pending taint survives any history of edits, taints, lost blobs and builds that do not select
+    the target. -/
+theorem taint_survives (P : Params κ) (l : Lbl) : ∀ (h : List Step) (w : World κ), w.cache.taint l = true → KeepsHist P l w h →
+    (runHistory P w h).cache.taint l = true := by
+  intro h
+  induction h with
+  | nil => intro w ht _; exact ht
+  | cons st rest ih =>
+    intro w ht hk
+    simp only [runHistory, List.foldl_cons]
+    apply ih (step P w st) _ hk.2
+    cases st with
+    | edit defs ws => exact ht
+    | taint ls => exact taintAll_true w.cache l ls (Or.inl ht)
+    | dropBlob v => exact ht
+    | build cfg order =>
+      obtain ⟨hm, hlab, hl⟩ := hk.1
+      show (build P cfg w order).cache.taint l = true
+      rw [taint_kept_if_not_selected P cfg hm w order hlab l hl]; exact ht
+
+/-- **taint_forces_next_selecting_build.** `grog taint` of a set containing `l`, then any history that does not build `l`,
+    then a mode-`all` build that selects `l` and in which `l`'s dependencies succeed: `l` is executed. -/
+theorem taint_forces_next_selecting_build (P : Params κ) (w : World κ) (ls : List Lbl) (l : Lbl) (hl : l ∈ ls) (h : List Step)
+    (hk : KeepsHist P l (step P w (.taint ls)) h) (cfg : Cfg) (hm : cfg.minimal = false) (order : List Lbl)
+    (hwf : WF (runHistory P w (.taint ls :: h)).defs order) (hlo : l ∈ order) (t : Target)
+    (ht : (runHistory P w (.taint ls :: h)).defs l = some t)
+    (hdeps : ∀ d ∈ t.deps, okAt (build P cfg (runHistory P w (.taint ls :: h)) order) d) :
+    l ∈ executed (build P cfg (runHistory P w (.taint ls :: h)) order) := by
+  apply forced_executed_in_build P cfg hm _ order hwf l hlo t ht _ hdeps
+  left
+  have h0 : (step P w (.taint ls)).cache.taint l = true := taintAll_true w.cache l ls (Or.inr hl)
+  have := taint_survives P l h (step P w (.taint ls)) h0 hk
+  simpa [runHistory] using this
+
+/-- **forced_executed_minimal.** The same under `load_outputs=minimal`: for every lock-step history (C15: well-formed
+    builds, no lost blobs; any flags) the `minimal` run of the final build executes exactly the commands the `all` run
+    executes — in particular every forced target whose dependencies succeeded. -/
+theorem forced_executed_minimal (P : Params κ) (hG : Good P) (hfx : P.fx.minValidate = true) (hro : P.fx.rerunOnce = true)
+    (hlf : P.fx.loadFault = true) (outP : Path → Prop) (w : World κ) (h : List Step) (cfg : Cfg) (order : List Lbl)
+    (hcas : CasOK w.cache) (hH : HistOK outP w.defs h) (hB : BuildOK outP (runHistory P w (forceMode false h)).defs order)
+    (l : Lbl) (hl : l ∈ order) (t : Target) (ht : (runHistory P w (forceMode false h)).defs l = some t)
+    (hf : (runHistory P w (forceMode false h)).cache.taint l = true ∨ t.noCache = true ∨ cfg.enableCache = false)
+    (hdeps : ∀ d ∈ t.deps, okAt (build P (C15.withMode cfg false) (runHistory P w (forceMode false h)) order) d) :
+    l ∈ executed (build P (C15.withMode cfg true) (runHistory P w (forceMode true h)) order) := by
+  obtain ⟨_, he, _, _⟩ := C15.same_verdict_and_execs_holds P hG hfx hro hlf outP w h cfg order hcas hH hB
+  rw [← he]
+  exact forced_executed_in_build P (C15.withMode cfg false) rfl _ order hB.wf l hl t ht hf hdeps
+
+/-- the hypotheses of the history-level statements are satisfiable by a non-empty order: one tainted target, selected -/
+example : ∃ (w : World Nat) (order : List Lbl) (l : Lbl) (t : Target), WF w.defs order ∧ l ∈ order ∧ w.defs l = some t ∧
+    w.cache.taint l = true ∧ ∀ d ∈ t.deps, okAt (build (⟨fun _ => 0, fun _ _ => ⟨true, [], []⟩, Fixes.current⟩ : Params Nat) ⟨true, false⟩ w order) d :=
+  ⟨{ defs := C15.exDefs, fs := fun _ => none, cache := { res := fun _ => none, cas := fun _ => false, taint := fun _ => true } },
+    [[1]], [1], mkT [1] [⟨false, [9]⟩] [] false, C15.exBuildOK.wf, by simp, by simp [C15.exDefs], rfl, fun d hd => by simp [mkT] at hd⟩
+
+end histories
 
 end Grog.C13
